@@ -1350,6 +1350,22 @@ func (bc *boundsCtx) seedCapturedLengths(fn *ssa.Function, s cstate) {
 		if len(ns) != 1 || ns[0].Parent() != nCell.Parent() {
 			continue
 		}
+		// `width = 5` hoisted out of the closures: a captured cell assigned exactly once, with a constant, before every
+		// closure that captures it is created, has that value whenever such a closure runs
+		if c, isConst := constInt(ns[0].Val); isConst {
+			okOrder := true
+			for _, ref := range referrers(nCell) {
+				if mc, isMC := ref.(*ssa.MakeClosure); isMC && !instrDominates(ns[0], mc) {
+					okOrder = false
+				}
+			}
+			if okOrder {
+				nk := cellID(nCell)
+				s.add(nk, zeroTerm, c)
+				s.add(zeroTerm, nk, -c)
+			}
+			continue
+		}
 		arg, ok := lenArg(ns[0].Val)
 		if !ok {
 			continue
